@@ -889,6 +889,270 @@ u_huge(uint64_t idx, void *arg)
                       "2^32+3 octets per call (no memory is touched)");
 }
 
+/* ---- layered endpoints: a driver that itself uses the endpoint API on a lower endpoint ----
+ * A stuffing filter in front of a sink (FLAG 7e and ESC 7d become ESC, octet ^ 20 - it emits the ESC to the lower
+ * sink first and looks at its own input again afterwards) and the matching un-stuffing source on top of a lower
+ * source. Whatever the API keeps between the moment a driver is called and the moment the driver reads its
+ * arguments must belong to that call. */
+struct layer {
+    Sink *lower_sink;
+    Source *lower_src;
+    int use_chunk_api; /* forward runs with sink_put_chunk / pull with source_get_chunk where possible */
+    unsigned calls;
+};
+
+struct collect {
+    unsigned char buf[600];
+    size_t n;
+    const unsigned char *p; /* source side: what the lower source delivers */
+    size_t plen, ppos;
+    size_t maxper;
+};
+
+static ssize_t
+collect_chunk(void *drv, const void *p, size_t n)
+{
+    struct collect *c = drv;
+    if (c->maxper && n > c->maxper)
+        n = c->maxper;
+    if (c->n + n > sizeof c->buf)
+        return -ENOMEM;
+    memcpy(c->buf + c->n, p, n);
+    c->n += n;
+    return (ssize_t)n;
+}
+
+static int
+collect_octet(void *drv, unsigned char o)
+{
+    return (int)collect_chunk(drv, &o, 1);
+}
+
+static ssize_t
+deliver_chunk(void *drv, void *out, size_t n)
+{
+    struct collect *c = drv;
+    if (c->ppos >= c->plen)
+        return -ENODATA;
+    if (c->maxper && n > c->maxper)
+        n = c->maxper;
+    if (n > c->plen - c->ppos)
+        n = c->plen - c->ppos;
+    memcpy(out, c->p + c->ppos, n);
+    c->ppos += n;
+    return (ssize_t)n;
+}
+
+static int
+deliver_octet(void *drv, void *out)
+{
+    return (int)deliver_chunk(drv, out, 1);
+}
+
+static ssize_t
+stuff_chunk(void *drv, const void *p, size_t n)
+{
+    struct layer *l = drv;
+    const unsigned char *in = p;
+    l->calls++;
+    for (size_t i = 0; i < n; i++) {
+        int rc;
+        if (in[i] == 0x7e || in[i] == 0x7d) {
+            rc = sink_put_octet(l->lower_sink, 0x7d);
+            if (rc < 0)
+                return rc;
+            /* only now is the octet itself looked at again */
+            rc = sink_put_octet(l->lower_sink, (unsigned char)(in[i] ^ 0x20));
+        } else if (l->use_chunk_api) {
+            size_t run = 1;
+            while (i + run < n && in[i + run] != 0x7e && in[i + run] != 0x7d)
+                run++;
+            ssize_t r = sink_put_chunk(l->lower_sink, in + i, run);
+            rc = r < 0 ? (int)r : 1;
+            i += run - 1;
+        } else {
+            rc = sink_put_octet(l->lower_sink, in[i]);
+        }
+        if (rc < 0)
+            return rc;
+    }
+    return (ssize_t)n;
+}
+
+static int
+stuff_octet(void *drv, unsigned char o)
+{
+    return (int)stuff_chunk(drv, &o, 1);
+}
+
+static int
+unstuff_octet(void *drv, void *out)
+{
+    struct layer *l = drv;
+    unsigned char c;
+    l->calls++;
+    int rc = source_get_octet(l->lower_src, &c);
+    if (rc < 0)
+        return rc;
+    if (c == 0x7d) {
+        unsigned char d;
+        rc = l->use_chunk_api ? (int)source_get_chunk(l->lower_src, &d, 1) : source_get_octet(l->lower_src, &d);
+        if (rc < 0)
+            return rc;
+        c = (unsigned char)(d ^ 0x20);
+    }
+    *(unsigned char *)out = c;
+    return 1;
+}
+
+static ssize_t
+unstuff_chunk(void *drv, void *out, size_t n)
+{
+    unsigned char *o = out;
+    size_t k = 0;
+    /* at most three octets per call: a chunk driver may deliver less than asked */
+    while (k < n && k < 3) {
+        int rc = unstuff_octet(drv, o + k);
+        if (rc < 0)
+            return k ? (ssize_t)k : rc;
+        k++;
+    }
+    return (ssize_t)k;
+}
+
+static void
+u_layered(uint64_t idx, void *arg)
+{
+    (void)arg;
+    vh_rng r;
+    vh_unit_rng(&r, "layered", idx);
+    for (int rep = 0; rep < 200; rep++) {
+        vh_arena_reset();
+        unsigned char stream[120], stuffed[260];
+        size_t L = 1 + (size_t)vh_below(&r, 100), sn = 0;
+        for (size_t i = 0; i < L; i++) {
+            static const unsigned char special[] = { 0x7e, 0x7d, 0x5e, 0x5d, 0x7e, 0x7d };
+            stream[i] = vh_chance(&r, 1, 3) ? special[vh_below(&r, 6)] : (unsigned char)vh_rand(&r);
+        }
+        for (size_t i = 0; i < L; i++) {
+            if (stream[i] == 0x7e || stream[i] == 0x7d) {
+                stuffed[sn++] = 0x7d;
+                stuffed[sn++] = (unsigned char)(stream[i] ^ 0x20);
+            } else
+                stuffed[sn++] = stream[i];
+        }
+        const int upper_chunk = (int)vh_below(&r, 2), lower_chunk = (int)vh_below(&r, 2);
+        const int fun = (int)vh_below(&r, 9);
+        static const char *fn[] = { "sink_put_octet", "sink_put_chunk", "sts_cbc", "sts_n_cbc", "sts_drain_cbc", "sts_n", "sts_drain",
+                                    "sts_n_aux", "source side" };
+        char key[96], ctx[200];
+        snprintf(key, sizeof key, "workload=layered api=%s upper=%s lower=%s", fn[fun], upper_chunk ? "chunk" : "octet",
+                 lower_chunk ? "chunk" : "octet");
+        VH_CASE4(idx, rep, fun, L);
+        struct layer ly;
+        struct collect lo;
+        memset(&ly, 0, sizeof ly);
+        memset(&lo, 0, sizeof lo);
+        ly.use_chunk_api = (int)vh_below(&r, 2);
+        lo.maxper = vh_chance(&r, 1, 2) ? 0 : 1 + (size_t)vh_below(&r, 3);
+        (*vh_ncases)++;
+        if (fun < 8) {
+            Sink lower, upper;
+            if (lower_chunk)
+                chunk_sink_init(&lower, collect_chunk, &lo);
+            else
+                octet_sink_init(&lower, collect_octet, &lo);
+            ly.lower_sink = &lower;
+            if (upper_chunk)
+                chunk_sink_init(&upper, stuff_chunk, &ly);
+            else
+                octet_sink_init(&upper, stuff_octet, &ly);
+            /* where the octets come from: the caller's memory or a plain source over it */
+            struct collect feed;
+            memset(&feed, 0, sizeof feed);
+            unsigned char *mem = vh_arena_copy(stream, L);
+            feed.p = mem;
+            feed.plen = L;
+            feed.maxper = vh_chance(&r, 1, 2) ? 0 : 1 + (size_t)vh_below(&r, 4);
+            Source src;
+            if (vh_chance(&r, 1, 2))
+                chunk_source_init(&src, deliver_chunk, &feed);
+            else
+                octet_source_init(&src, deliver_octet, &feed);
+            size_t N = 1 + (size_t)vh_below(&r, L), moved = N;
+            ssize_t rc = 0;
+            unsigned char auxm[5];
+            ByteBuffer aux;
+            byte_buffer_space(&aux, auxm, 1 + (size_t)vh_below(&r, 5));
+            switch (fun) {
+            case 0:
+                for (size_t i = 0; i < N && rc >= 0; i++)
+                    rc = sink_put_octet(&upper, mem[i]);
+                break;
+            case 1: rc = sink_put_chunk(&upper, mem, N); break;
+            case 2: rc = sts_cbc(&src, &upper); moved = 1; break;
+            case 3: rc = sts_n_cbc(&src, &upper, N); break;
+            case 4: rc = sts_drain_cbc(&src, &upper); moved = L; break;
+            case 5: rc = sts_n(&src, &upper, N); break;
+            case 6: rc = sts_drain(&src, &upper); moved = L; break;
+            default: rc = sts_n_aux(&src, &upper, &aux, N); break;
+            }
+            /* expected image below the filter: the stuffing of the first `moved` octets */
+            size_t en = 0;
+            unsigned char expect[260];
+            for (size_t i = 0; i < moved; i++) {
+                if (stream[i] == 0x7e || stream[i] == 0x7d) {
+                    expect[en++] = 0x7d;
+                    expect[en++] = (unsigned char)(stream[i] ^ 0x20);
+                } else
+                    expect[en++] = stream[i];
+            }
+            snprintf(ctx, sizeof ctx, "stream %s.. (%zu octets), %zu to move: rc=%zd, below the filter %zu octets", vh_hex(stream, L > 12 ? 12 : L),
+                     L, moved, rc, lo.n);
+            int drained = fun == 4 || fun == 6;
+            if ((!drained && rc < 0) || (drained && rc >= 0))
+                vh_fail("layered-result", key, "%s", ctx);
+            if (lo.n != en || memcmp(lo.buf, expect, en) != 0) {
+                size_t d = 0;
+                while (d < en && d < lo.n && lo.buf[d] == expect[d])
+                    d++;
+                vh_fail("layered-content", key, "%s; first difference at %zu: got %s expected %s", ctx, d,
+                        vh_hex(lo.buf + d, lo.n - d > 8 ? 8 : lo.n - d), vh_hex(expect + d, en - d > 8 ? 8 : en - d));
+            }
+            VH_COUNT("layered sink: a driver that uses the sink API on a lower sink");
+        } else {
+            Source lower, upper;
+            unsigned char *mem = vh_arena_copy(stuffed, sn);
+            lo.p = mem;
+            lo.plen = sn;
+            if (lower_chunk)
+                chunk_source_init(&lower, deliver_chunk, &lo);
+            else
+                octet_source_init(&lower, deliver_octet, &lo);
+            ly.lower_src = &lower;
+            if (upper_chunk)
+                chunk_source_init(&upper, unstuff_chunk, &ly);
+            else
+                octet_source_init(&upper, unstuff_octet, &ly);
+            size_t N = 1 + (size_t)vh_below(&r, L);
+            unsigned char *dst = vh_arena(N);
+            ssize_t rc;
+            if (vh_chance(&r, 1, 2)) {
+                rc = source_get_chunk(&upper, dst, N);
+            } else {
+                rc = 0;
+                for (size_t i = 0; i < N && rc >= 0; i++)
+                    rc = source_get_octet(&upper, dst + i);
+            }
+            snprintf(ctx, sizeof ctx, "stuffed stream of %zu octets, %zu to read: rc=%zd", sn, N, rc);
+            if (rc < 0 || memcmp(dst, stream, N) != 0)
+                vh_fail("layered-content", key, "%s: got %s expected %s", ctx, vh_hex(dst, N > 12 ? 12 : N), vh_hex(stream, N > 12 ? 12 : N));
+            VH_COUNT("layered source: a driver that uses the source API on a lower source");
+        }
+        vh_sig(0x17900000ull ^ (idx << 8) ^ (uint64_t)rep);
+    }
+}
+
 /* ---- the library's own endpoints: buffer, chunk list, zero/empty/null ---- */
 static void
 u_lib(uint64_t idx, void *arg)
@@ -1053,6 +1317,10 @@ harness_run(void)
         vh_unit("big", i, u_big, NULL);
     for (uint64_t i = 0; i < (vh_tier ? 400u : 16u); i++)
         vh_unit("lib", i, u_lib, NULL);
+    for (uint64_t i = 0; i < (vh_tier ? 2000u : 40u); i++)
+        vh_unit("layered", i, u_layered, NULL);
+    vh_require("layered sink: a driver that uses the sink API on a lower sink");
+    vh_require("layered source: a driver that uses the source API on a lower source");
     vh_unit("huge", 0, u_huge, NULL);
     static const char *req[] = { "exact get: completed", "exact get: hard error path", "exact put: completed",
                                  "exact put: hard error path", "at-most: count returned", "at-most: error returned",
